@@ -56,7 +56,8 @@ TRUSTED = [
     "CPython threading.Semaphore / Lock / Thread implement the model's primitives; the kernel socket layer (listen "
     "backlog, accept, byte streams) is replaced by an in-memory listener / socket pair with the same blocking behaviour",
     "harness/common/detsched.py: one real OS thread runs at a time; scheduling points at accept, every raw socket read and "
-    "write, every semaphore / lock / thread operation",
+    "write, every semaphore / lock / thread operation, and (part of the configurations) every source line of the accept loop "
+    "and of _handle",
     "Arrow IPC framing and the client (`RpcConnection`) are the real ones and are part of what is run, not of the model: "
     "the model's per-connection server is Engine.Pipe (message level)",
     "generated services: harness/c01.py generators (init always succeeds), stream states stamped with the connection id",
@@ -559,9 +560,14 @@ def controller(ds: DetSched, L: Listener, done: list[int], n: int) -> None:
     L.close()
 
 
-def make_sched(env: Env) -> DetSched:
-    ds = DetSched(step_limit=60000, wall_limit=30.0, trace_time=False)
+def make_sched(env: Env, lines: bool = False) -> DetSched:
+    ds = DetSched(step_limit=60000, wall_limit=8.0, trace_time=False)
     ds.patch(env.T, "threading")
+    if lines:
+        # every source line of the accept loop and of the nested `_handle` is a scheduling point too
+        outer = env.T._serve_socket_threaded.__code__
+        inner = [c for c in outer.co_consts if hasattr(c, "co_name") and c.co_name == "_handle"]
+        ds.preempt_lines(outer, *inner)
     return ds
 
 
@@ -674,7 +680,8 @@ def judge(ctx: Any, cfg: dict[str, Any], run: Any, an: dict[str, Any], model: An
     n = len(scripts)
     ctx.case(case, nontrivial=an["overlap"] or an["max_holding"] >= 2 or (cap is not None and n > cap), tags=(
         f"cap:{cap}", f"conns{n}", f"sched:{run.kind}", f"pre{min(run.preemptions, 4)}", f"transport:{cfg.get('transport', 'unix')}",
-        f"max-serving{an['max_serving']}", "overlapping" if an["overlap"] else "serialised", f"src:{cfg.get('src', 'gen')}"))
+        f"max-serving{an['max_serving']}", "overlapping" if an["overlap"] else "serialised", f"src:{cfg.get('src', 'gen')}",
+        "lines" if cfg.get("lines") else "ops-only"))
     # ---- O
     if run.status != "ok":
         ctx.fail(case, f"C41:{run.status}", f"run ended with {run.status}: blocked {run.blocked}")
@@ -764,10 +771,11 @@ def explore_cfg(ctx: Any, cfg: dict[str, Any], dfs: int, bound: int, rnd: int) -
     if solo is None:
         return 0
     progs = [model_prog(cfg["service"], s, i) for i, s in enumerate(cfg["scripts"])]
-    ds = make_sched(env)
+    ds = make_sched(env, bool(cfg.get("lines")))
     setup = make_setup(env, cfg["scripts"], cfg["cap"])
     batch: list[tuple[Any, dict[str, Any]]] = []
     n = 0
+    stuck = 0
 
     def flush() -> None:
         if not batch:
@@ -784,6 +792,10 @@ def explore_cfg(ctx: Any, cfg: dict[str, Any], dfs: int, bound: int, rnd: int) -
             for run in ds.explore(setup, dfs=dfs, bound=bound, random=rnd, seed=f"{ctx.seed}:{ctx.evaluations}"):
                 batch.append((run, analyse(cfg, run)))
                 n += 1
+                if run.status in ("hang", "step-limit"):
+                    stuck += 1
+                    if stuck >= 2:  # every such run costs the scheduler's wall limit: two are enough to report
+                        break
                 if len(batch) >= 100:
                     flush()
                     if len(ctx.failures) >= STOP_AFTER:
@@ -856,17 +868,21 @@ def _run(ctx: Any) -> None:
         if not g["shape"]:
             ctx.note("shape_facts_hold", False)
     bound = 3 if thorough else 2
-    per = ctx.budget(30, 500)  # bounded-preemption schedules (fewest preemptions first) ...
-    rnd = ctx.budget(50, 700)  # ... and PCT / random-walk schedules (mid-call preemptions) per configuration
+    per = ctx.budget(25, 500)  # bounded-preemption schedules (fewest preemptions first) ...
+    rnd = ctx.budget(35, 700)  # ... and PCT / random-walk schedules (mid-call preemptions) per configuration
     cfgs: list[tuple[dict[str, Any], int, int, int]] = []
     for c in CORPUS:
         cfgs.append((dict(c, src="corpus"), per, bound, rnd))
     for i in range(ctx.budget(10, 70)):
-        cfgs.append((gen_cfg(rng, 2 if i % 3 else 3), per, bound, rnd))
+        c = gen_cfg(rng, 2 if i % 3 else 3)
+        if i % 3 == 1:
+            c["lines"] = True
+        cfgs.append((c, per, bound, rnd))
+    cfgs.insert(2, (dict(CORPUS[1], src="corpus", lines=True), per, bound, rnd))
     total = 0
     for cfg, dfs, b, rnd in cfgs:
         total += explore_cfg(ctx, cfg, dfs, b, rnd)
-        if len(ctx.failures) >= STOP_AFTER:
+        if len(ctx.failures) >= STOP_AFTER or sum(1 for f in ctx.failures if f.key in ("C41:hang", "C41:step-limit")) >= 4:
             ctx.note("stopped_early", "enough failing inputs found")
             break
     ctx.note("traces_validated_against_impl", total)
@@ -883,7 +899,7 @@ def replay(ctx: Any, case: dict[str, Any]) -> None:
         solo = solo_runs(ctx, env, cfg)
         if solo is None or "schedule" not in case:
             return
-        ds = make_sched(env)
+        ds = make_sched(env, bool(cfg.get("lines")))
         try:
             with ds:
                 run_ = ds.replay(make_setup(env, cfg["scripts"], cfg["cap"]), case["schedule"])
